@@ -8,6 +8,14 @@
 //! with the code's own key type is iterated in every repetition so that the evidence shows the
 //! iteration-order dimension was actually varied.
 
+#![allow(dead_code, clippy::type_complexity, clippy::too_many_arguments)]
+
+#[path = "c01/kit.rs"]
+mod kit;
+#[macro_use]
+#[path = "c05.rs"]
+mod c05;
+
 use std::collections::{BTreeMap, BTreeSet};
 use std::process::Command;
 
@@ -25,6 +33,8 @@ use p3_poseidon2_circuit_air::BabyBearD4Width16;
 use p3r_verif::fields::*;
 use p3r_verif::opsem::ops_text;
 use p3r_verif::pgen::{GenOpts, gen_prog};
+use p3r_verif::pipeline::run_pipeline;
+use c05::{BbD1P1, BbD1P2, BbD4P1, BbD4P2, GlD2P1, GlD2P2, KbD1P1, KbD1P2, KbD4P1, KbD4P2, KbD5P1, KbD5P2};
 use p3r_verif::pipeline::{PackCfg, SETUP_NAMES};
 use p3r_verif::prog::build;
 use p3r_verif::util::*;
@@ -120,6 +130,123 @@ fn parts_generated<S: Setup>(seed: u64, idx: usize) -> Option<Parts> {
         Ok(Err(e)) => parts.push(("keygen.error".into(), h(&e))),
         Err(p) => parts.push(("keygen.panic".into(), h(&panic_site(&p)))),
     }
+    if idx % 16 == 0 {
+        // trace generation + proving: the main-trace commitment is a deterministic function of the
+        // generated traces (non-hiding PCS), so it observes trace generation end to end
+        let pl = run_pipeline::<S>(&g.prog, &g.publics, &g.privates, &cfg, false, true);
+        parts.push(("run.stage_outcomes".into(), h(&format!("{}|{}|{}", pl.run.class(), pl.prove.class(), pl.verify.class()))));
+        if let (Some(t), Some(b)) = (&pl.traces, &pl.built) {
+            if let Ok(m) = S::mains(&b.circuit, t, &cfg.packing()) {
+                parts.push(("run.primitive_main_matrices".into(), h(&format!("{m:?}"))));
+            }
+        }
+        if let Some(proof) = &pl.proof {
+            proof_parts(proof, &mut parts);
+        }
+    }
+    Some(parts)
+}
+
+/// Digest of what a proof says about the traces it was made from: the main-trace commitment
+/// (function of every table's main matrix) is compared; the digest of the whole proof is only an
+/// observation (`obs.` parts never make a violation: the upstream prover may legitimately use
+/// randomness).
+fn proof_parts<P: serde::Serialize>(proof: &P, parts: &mut Parts) {
+    if let Ok(v) = serde_json::to_value(proof) {
+        let main = &v["proof"]["commitments"]["main"];
+        if !main.is_null() {
+            parts.push(("prove.main_trace_commitment".into(), h(&main.to_string())));
+        }
+        parts.push(("prove.table_metadata".into(), h(&format!("{}|{}|{}|{}", v["rows"], v["table_packing"], v["non_primitives"].as_array().map_or(0, |a| a.len()), v["ext_degree"]))));
+        parts.push(("obs.proof_bytes".into(), h(&v.to_string())));
+    }
+}
+
+/// Stream C: a circuit built by the library's in-circuit challenger (Poseidon2 / Poseidon1 rows,
+/// recompose rows, decomposition hints) on a random transcript history; compiled, keys generated
+/// with the plugin table provers, run, proven. This is the stream in which the `parallel` feature
+/// matters: the Poseidon AIR trace matrices are filled with `par_chunks_exact_mut`.
+fn parts_chal<C: c05::Cfg>(seed: u64, idx: usize) -> Option<Parts> {
+    let mut rng = case_rng(seed, "c18-chal", idx as u64);
+    let recompose = rng.random_range(0..2u32) == 0;
+    let o = c05::GenOpts {
+        max_ops: rng.random_range(4..40),
+        max_perms: 12,
+        pow: true,
+        clear: true,
+        bits: true,
+        end_sample: true,
+        const_pct: 30,
+    };
+    let hist = c05::gen_history::<C>(&mut rng, &o);
+    let built = guarded(|| c05::build_history::<C>(&hist, recompose, true, None, None)).ok()?.ok()?;
+    let mut parts = circuit_parts(&built.circuit);
+    if C::PROVABLE {
+        match guarded(|| C::prove_kit(&built.circuit, recompose)) {
+            Ok(Ok(kit)) => {
+                parts.push(("keygen.primitive_columns".into(), h(&format!("{:?}", kit.cpd.primitive_columns))));
+                let mut np: Vec<(String, String)> = kit.cpd.non_primitive_columns.iter().map(|(k, v)| (format!("{k:?}"), format!("{v:?}"))).collect();
+                np.sort();
+                parts.push(("keygen.non_primitive_columns".into(), h(&format!("{np:?}"))));
+                parts.push(("keygen.commitment".into(), h(&commitment_json(kit.cpd.common_data()))));
+                match guarded(|| c05::run_built::<C>(&built, &built.publics)) {
+                    Ok(Ok(traces)) => match guarded(|| <C::S as Setup>::prove(&kit.prover, &traces, &kit.cpd)) {
+                        Ok(Ok(proof)) => {
+                            proof_parts(&proof, &mut parts);
+                            let v = guarded(|| <C::S as Setup>::verify(&kit.prover, &proof).is_ok());
+                            parts.push(("prove.verifies".into(), h(&format!("{v:?}"))));
+                        }
+                        Ok(Err(e)) => parts.push(("prove.error".into(), h(&variant_of_dbg(&e)))),
+                        Err(p) => parts.push(("prove.panic".into(), h(&panic_site(&p)))),
+                    },
+                    Ok(Err(e)) => parts.push(("run.error".into(), h(&c05::err_variant(&e)))),
+                    Err(p) => parts.push(("run.panic".into(), h(&panic_site(&p)))),
+                }
+            }
+            Ok(Err(e)) => parts.push(("keygen.error".into(), h(&variant_of_dbg(&e)))),
+            Err(p) => parts.push(("keygen.panic".into(), h(&panic_site(&p)))),
+        }
+    }
+    Some(parts)
+}
+
+fn variant_of_dbg(s: &str) -> String {
+    s.split(|c: char| !c.is_alphanumeric() && c != '_').find(|x| !x.is_empty()).unwrap_or("Err").to_string()
+}
+
+/// Stream D: the recursive verifier circuits of the shared proof-shape kit (uni-STARK, batch-STARK
+/// and circuit-prover proofs over every kit configuration): the circuit `verify_*_circuit` builds
+/// for the honest proof and the one `build_next_layer_circuit` builds, as structural fingerprints
+/// (ops with witness ids and constants, input rows), plus the packed input lengths.
+fn parts_kit(shapes: &[Box<dyn kit::Shape>], idx: usize) -> Option<Parts> {
+    let shape = shapes.get(idx)?;
+    let hb = shape.honest().ok()?;
+    let ctx = shape.ctx().ok()?;
+    let mut parts: Parts = vec![];
+    // honest proofs of the kit come from seeded provers: observation only
+    parts.push(("obs.honest_proof".into(), h(&hb.to_string())));
+    match ctx.compile(&hb) {
+        Ok(Ok(c)) => {
+            parts.push(("verifier.circuit_fingerprint".into(), c.fingerprint()));
+            let (a, b) = c.flat_lens();
+            parts.push(("verifier.flat_lens".into(), h(&format!("{a}/{b}"))));
+            parts.push(("verifier.public_rows".into(), h(&format!("{:?}", c.public_rows()))));
+            parts.push(("verifier.private_rows".into(), h(&format!("{:?}", c.private_rows()))));
+            if let Ok(es) = c.entries() {
+                let w: Vec<(u32, Option<u32>)> = es.iter().map(|e| (e.target, c.widx(e.target))).collect();
+                parts.push(("verifier.target_slots".into(), h(&format!("{w:?}"))));
+            }
+        }
+        Ok(Err(v)) => parts.push(("verifier.build".into(), h(&v.label()))),
+        Err(_) => return None,
+    }
+    if let Ok(list) = ctx.extra_entry_points(&hb) {
+        for (ep, v) in list {
+            if ep.ends_with("#fingerprint") {
+                parts.push((format!("next_layer.{ep}"), h(&v.label())));
+            }
+        }
+    }
     Some(parts)
 }
 
@@ -213,6 +340,35 @@ fn parts_for(seed: u64, idx: usize) -> Option<Parts> {
     }
 }
 
+/// Job keys: `g<i>` generated / npo-rich program, `c<i>` challenger circuit, `k<i>` verifier circuit.
+fn parts_job(seed: u64, key: &str, shapes: &[Box<dyn kit::Shape>]) -> Option<Parts> {
+    let idx: usize = key[1..].parse().ok()?;
+    match &key[..1] {
+        "g" => parts_for(seed, idx),
+        "c" => {
+            let name = c05::ALL_CONFIGS[idx % c05::ALL_CONFIGS.len()];
+            with_cfg!(name, parts_chal, seed, idx)
+        }
+        "k" => parts_kit(shapes, idx),
+        _ => None,
+    }
+}
+
+/// Upstream p3-fri 0.6.3 deadlocks in `HidingFriPcs::get_quotient_ldes` when its `parallel` feature is
+/// on and a batch has several instances (a spin lock around the blinding RNG is held across a rayon
+/// call and re-entered by work stealing; observed with gdb, all threads in `SpinMutex::lock`). Not this
+/// repository's code: the `parallel`-feature workers leave the hiding-PCS kit shapes out.
+fn skip_in_this_build(key: &str, shapes: &[Box<dyn kit::Shape>]) -> bool {
+    if !cfg!(feature = "parallel") || !key.starts_with('k') {
+        return false;
+    }
+    key[1..].parse::<usize>().ok().and_then(|i| shapes.get(i)).is_some_and(|s| s.name().contains("-zk"))
+}
+
+fn job_keys(n: usize, nchal: usize, nkit: usize) -> Vec<String> {
+    (0..n).map(|i| format!("g{i}")).chain((0..nchal).map(|i| format!("c{i}"))).chain((0..nkit).map(|i| format!("k{i}"))).collect()
+}
+
 /// Iteration order of a fresh map with the code's key type: evidence that hash seeds vary.
 fn canary_order() -> String {
     let mut m = hashbrown::HashMap::new();
@@ -222,14 +378,55 @@ fn canary_order() -> String {
     m.keys().map(|k| k.0.to_string()).collect::<Vec<_>>().join(",")
 }
 
+fn output_with_timeout(cmd: &mut Command, limit: std::time::Duration) -> Result<std::process::Output, String> {
+    use std::io::Read;
+    let mut child = cmd.stdout(std::process::Stdio::piped()).stderr(std::process::Stdio::null()).spawn().map_err(|e| format!("spawn: {e}"))?;
+    let mut so = child.stdout.take().unwrap();
+    let reader = std::thread::spawn(move || {
+        let mut buf = vec![];
+        let _ = so.read_to_end(&mut buf);
+        buf
+    });
+    let t0 = std::time::Instant::now();
+    let status = loop {
+        match child.try_wait() {
+            Ok(Some(st)) => break st,
+            Ok(None) => {
+                if t0.elapsed() > limit {
+                    let _ = child.kill();
+                    let _ = child.wait();
+                    return Err(format!("watchdog: worker still running after {} s", limit.as_secs()));
+                }
+                std::thread::sleep(std::time::Duration::from_millis(50));
+            }
+            Err(e) => return Err(format!("wait: {e}")),
+        }
+    };
+    Ok(std::process::Output { status, stdout: reader.join().unwrap_or_default(), stderr: vec![] })
+}
+
 fn main() {
     let args = parse_args();
+    let thorough = matches!(args.tier, Tier::Thorough);
+    let shapes = kit::all_shapes(thorough);
     if args.extra.contains_key("worker") {
-        let from: usize = args.extra.get("from").and_then(|s| s.parse().ok()).unwrap_or(0);
-        let to: usize = args.extra.get("to").and_then(|s| s.parse().ok()).unwrap_or(0);
-        for idx in from..to {
-            let parts = guarded(|| parts_for(args.seed, idx)).ok().flatten();
-            println!("{}", json!({"idx": idx, "parts": parts, "canary": canary_order()}));
+        let geti = |k: &str| args.extra.get(k).and_then(|s| s.parse::<usize>().ok()).unwrap_or(0);
+        let mut keys = job_keys(geti("n"), geti("nchal"), geti("nkit").min(shapes.len()));
+        if let Some(k) = args.extra.get("only") {
+            keys = vec![k.clone()];
+        }
+        let lines = std::sync::Mutex::new(Vec::<String>::new());
+        let seed = args.seed;
+        let _ = run_cases(keys.len(), geti("wthreads").max(1), |i| {
+            if skip_in_this_build(&keys[i], &shapes) {
+                return vec![];
+            }
+            let parts = guarded(|| parts_job(seed, &keys[i], &shapes)).ok().flatten();
+            lines.lock().unwrap().push(json!({"key": keys[i], "parts": parts, "canary": canary_order()}).to_string());
+            vec![]
+        });
+        for l in lines.into_inner().unwrap() {
+            println!("{l}");
         }
         return;
     }
@@ -237,25 +434,43 @@ fn main() {
         "C18",
         "exploration",
         &args,
-        "case = (program, repetition set): R in-process rebuilds + P fresh processes of the same program; the digest of \
-         ops / numbering / rows / maps / preprocessed columns / AIR order / preprocessed commitment must be identical; \
-         non-trivial = the program built and >= 3 distinct canary iteration orders were observed in the run; distinct by \
-         program index",
+        "case = (program, repetition set): R in-process rebuilds + P fresh processes of the same program + 3 fresh \
+         processes of a build with the `parallel` cargo feature (RAYON_NUM_THREADS = 1, 4, 16); programs = generated \
+         builder programs and NPO-rich circuits (g*), library-built challenger circuits with Poseidon2/Poseidon1/recompose \
+         tables that are also run and proven (c*), recursive verifier circuits of every kit proof shape incl. the \
+         next-layer builder (k*). The digest of ops / numbering / rows / maps / preprocessed columns / AIR order / \
+         preprocessed commitment / (where proven) primitive main matrices and main-trace commitment must be identical \
+         in every execution; `obs.*` components (whole proof bytes) are reported, never judged. non-trivial = the program \
+         built and >= 3 distinct canary iteration orders were observed in the run; distinct by program key",
     );
-    rep.assume("the `parallel` cargo feature of p3-circuit-prover is not enabled in the harness build (thread-count dimension not varied)");
-    let n = args.tier.pick(2000usize, 60_000usize);
+    rep.assume("hash seeds of the code under test are not controlled: each HashMap::new() / process draws its own (the canary counts how many iteration orders were seen)");
+    rep.assume("the main-trace commitment of a non-hiding proof is a deterministic function of the table matrices (used as the observable of trace generation, serial and parallel)");
+    let geti = |k: &str, d: usize| args.extra.get(k).and_then(|s| s.parse::<usize>().ok()).unwrap_or(d);
+    let n = geti("n", args.tier.pick(2000usize, 60_000usize));
+    let nchal = geti("nchal", args.tier.pick(96usize, 2400usize));
+    let nkit = geti("nkit", shapes.len()).min(shapes.len());
     let reps = args.tier.pick(5usize, 8usize);
     let procs = args.tier.pick(3usize, 6usize);
     let seed = args.seed;
+    let mut keys = job_keys(n, nchal, nkit);
+    let mut only: Option<String> = args.extra.get("only").cloned();
+    if let Some(p) = &args.replay {
+        let v: Value = serde_json::from_str(&std::fs::read_to_string(p).expect("replay file")).expect("json");
+        only = v["detail"]["program_key"].as_str().map(str::to_string);
+    }
+    if let Some(k) = &only {
+        keys = vec![k.clone()];
+    }
     // in-process repetitions
     let canaries = std::sync::Mutex::new(BTreeSet::new());
     let inproc: Vec<(usize, Vec<Option<Parts>>)> = {
         let v = std::sync::Mutex::new(vec![]);
-        let _ = run_cases(n, args.threads, |i| {
+        let _ = run_cases(keys.len(), args.threads, |i| {
             let mut rs = vec![];
-            for _ in 0..reps {
+            let r = if keys[i].starts_with('g') { reps } else { 2 };
+            for _ in 0..r {
                 canaries.lock().unwrap().insert(canary_order());
-                rs.push(guarded(|| parts_for(seed, i)).ok().flatten());
+                rs.push(guarded(|| parts_job(seed, &keys[i], &shapes)).ok().flatten());
             }
             v.lock().unwrap().push((i, rs));
             vec![]
@@ -264,68 +479,103 @@ fn main() {
         x.sort_by_key(|t| t.0);
         x
     };
-    // fresh processes
+    // fresh processes: `procs` of this binary, and three of the `parallel`-feature build
     let exe = std::env::current_exe().unwrap();
-    let mut by_proc: Vec<BTreeMap<usize, Option<Parts>>> = vec![];
+    let par_exe = std::env::var("P3R_C18_PAR_EXE").map(std::path::PathBuf::from).unwrap_or_else(|_| {
+        exe.parent().unwrap().join("../../target-par/release/c18")
+    });
+    let mut specs: Vec<(String, std::path::PathBuf, Option<&str>)> = (0..procs).map(|p| (format!("proc{p}"), exe.clone(), None)).collect();
+    let have_par = par_exe.exists() && !args.extra.contains_key("nopar");
+    if have_par {
+        for t in ["1", "4", "16"] {
+            specs.push((format!("parallel-feature/threads{t}"), par_exe.clone(), Some(t)));
+        }
+    }
+    let wthreads = (args.threads * 2 / specs.len().max(1)).max(2);
+    let tier_s = if thorough { "thorough" } else { "quick" };
+    let mut by_proc: Vec<(String, BTreeMap<String, Option<Parts>>)> = vec![];
     let mut worker_err = None;
-    let outs: Vec<Result<(BTreeMap<usize, Option<Parts>>, BTreeSet<String>), String>> = std::thread::scope(|s| {
-        let hs: Vec<_> = (0..procs)
-            .map(|_| {
-                let exe = exe.clone();
+    let outs: Vec<(String, Result<(BTreeMap<String, Option<Parts>>, BTreeSet<String>), String>)> = std::thread::scope(|s| {
+        let hs: Vec<_> = specs
+            .iter()
+            .map(|(name, exe, rayon)| {
+                let (name, exe, rayon) = (name.clone(), exe.clone(), *rayon);
+                let only = only.clone();
                 s.spawn(move || {
-                    let out = Command::new(&exe)
-                        .args(["--worker", "1", "--seed", &seed.to_string(), "--from", "0", "--to", &n.to_string()])
-                        .output()
-                        .map_err(|e| format!("spawn: {e}"))?;
-                    if !out.status.success() {
-                        return Err(format!("worker exit {:?}", out.status.code()));
+                    let mut cmd = Command::new(&exe);
+                    cmd.args(["--worker", "1", "--tier", tier_s, "--seed", &seed.to_string(), "--n", &n.to_string(), "--nchal", &nchal.to_string(),
+                        "--nkit", &nkit.to_string(), "--wthreads", &wthreads.to_string()]);
+                    if let Some(k) = &only {
+                        cmd.args(["--only", k]);
                     }
-                    let mut m = BTreeMap::new();
-                    let mut cs = BTreeSet::new();
-                    for line in String::from_utf8_lossy(&out.stdout).lines() {
-                        if let Ok(v) = serde_json::from_str::<Value>(line) {
-                            let idx = v["idx"].as_u64().unwrap_or(0) as usize;
-                            let parts: Option<Parts> = serde_json::from_value(v["parts"].clone()).ok().flatten();
-                            m.insert(idx, parts);
-                            cs.insert(v["canary"].as_str().unwrap_or("").to_string());
+                    if let Some(t) = rayon {
+                        cmd.env("RAYON_NUM_THREADS", t);
+                    }
+                    let r = (|| {
+                        // generous wall-clock watchdog; its firing is inconclusive, never a violation
+                        let out = output_with_timeout(&mut cmd, std::time::Duration::from_secs(if thorough { 4 * 3600 } else { 900 }))?;
+                        if !out.status.success() {
+                            return Err(format!("worker exit {:?}", out.status.code()));
                         }
-                    }
-                    Ok((m, cs))
+                        let mut m = BTreeMap::new();
+                        let mut cs = BTreeSet::new();
+                        for line in String::from_utf8_lossy(&out.stdout).lines() {
+                            if let Ok(v) = serde_json::from_str::<Value>(line) {
+                                let Some(key) = v["key"].as_str() else { continue };
+                                let parts: Option<Parts> = serde_json::from_value(v["parts"].clone()).ok().flatten();
+                                m.insert(key.to_string(), parts);
+                                cs.insert(v["canary"].as_str().unwrap_or("").to_string());
+                            }
+                        }
+                        Ok((m, cs))
+                    })();
+                    (name, r)
                 })
             })
             .collect();
         hs.into_iter().map(|h| h.join().unwrap()).collect()
     });
-    for o in outs {
+    for (name, o) in outs {
         match o {
             Ok((m, cs)) => {
-                by_proc.push(m);
+                by_proc.push((name, m));
                 canaries.lock().unwrap().extend(cs);
             }
-            Err(e) => worker_err = Some(e),
+            Err(e) => worker_err = Some(format!("{name}: {e}")),
         }
     }
     if let Some(e) = &worker_err {
         rep.add(CaseResult::inconclusive("workers", format!("worker process failed: {e}")));
     }
+    if !have_par {
+        rep.add(CaseResult::inconclusive("parallel-feature", format!("no `parallel`-feature build of this monitor at {} (./check builds it); thread-count dimension not varied in this run", par_exe.display())));
+    }
     let n_canary = canaries.lock().unwrap().len();
     rep.set_extra("distinct_canary_iteration_orders", json!(n_canary));
     rep.set_extra("in_process_repetitions", json!(reps));
-    rep.set_extra("fresh_processes", json!(by_proc.len()));
+    rep.set_extra("fresh_processes", json!(by_proc.iter().map(|(n, m)| (n.clone(), m.len())).collect::<Vec<_>>()));
+    rep.set_extra("parallel_feature_build_compared", json!(have_par));
     let varied = n_canary >= 3;
-    for (idx, runs) in &inproc {
-        let key = format!("prog{idx}");
+    for (ji, runs) in &inproc {
+        let key = keys[*ji].clone();
+        let stream = match &key[..1] {
+            "g" if key[1..].parse::<usize>().map_or(false, |i| i % 5 == 4) => "npo-rich",
+            "g" => "generated",
+            "c" => "challenger-circuit",
+            _ => "verifier-circuit",
+        };
         let Some(Some(first)) = runs.first() else {
-            rep.add(CaseResult::held(key, false).count("program-did-not-build", 1));
+            rep.add(CaseResult::held(format!("prog-{key}"), false).count(format!("program-did-not-build/{stream}"), 1));
             continue;
         };
         let mut all: Vec<(String, &Option<Parts>)> = runs.iter().enumerate().map(|(k, r)| (format!("rep{k}"), r)).collect();
-        for (p, m) in by_proc.iter().enumerate() {
-            if let Some(r) = m.get(idx) {
-                all.push((format!("proc{p}"), r));
+        for (pname, m) in by_proc.iter() {
+            if let Some(r) = m.get(&key) {
+                all.push((pname.clone(), r));
             }
         }
         let mut differing: BTreeSet<String> = BTreeSet::new();
+        let mut obs_differing: BTreeSet<String> = BTreeSet::new();
         for (_, r) in &all {
             match r {
                 Some(parts) => {
@@ -334,7 +584,8 @@ fn main() {
                     }
                     for (a, b) in parts.iter().zip(first.iter()) {
                         if a != b {
-                            differing.insert(if a.0 == b.0 { a.0.clone() } else { format!("{}|{}", a.0, b.0) });
+                            let name = if a.0 == b.0 { a.0.clone() } else { format!("{}|{}", a.0, b.0) };
+                            if name.starts_with("obs.") { obs_differing.insert(name); } else { differing.insert(name); }
                         }
                     }
                 }
@@ -344,25 +595,40 @@ fn main() {
             }
         }
         if differing.is_empty() {
-            let stream = if idx % 5 == 4 { "npo-rich" } else { "generated" };
-            let mut r = CaseResult::held(key, varied).count(format!("stream/{stream}"), 1).count("digests-compared", all.len() as u64);
-            if *idx < 3 {
-                r = r.with_sample(json!({"program": idx, "stream": stream, "executions_compared": all.len(),
+            let proven = first.iter().any(|p| p.0 == "prove.main_trace_commitment");
+            let mut r = CaseResult::held(format!("prog-{key}"), varied)
+                .count(format!("stream/{stream}"), 1)
+                .count("digests-compared", all.len() as u64)
+                .count("components-compared", (all.len() * first.len()) as u64);
+            if proven {
+                r = r.count(format!("run-and-proven/{stream}"), 1);
+            }
+            if all.iter().any(|(n, _)| n.starts_with("parallel-feature")) {
+                r = r.count("compared-with-parallel-feature-build", 1);
+            }
+            for o in &obs_differing {
+                r = r.count(format!("observation-differs/{o}/{stream}"), 1);
+            }
+            if matches!(key.as_str(), "g0" | "g4" | "c0" | "c4" | "k0" | "k3") {
+                r = r.with_sample(json!({"program": key, "stream": stream, "executions_compared": all.iter().map(|(n, _)| n.clone()).collect::<Vec<_>>(),
                     "components": first.iter().map(|p| p.0.clone()).collect::<Vec<_>>()}));
             }
             rep.add(r);
         } else {
             let comp = differing.iter().next().unwrap().clone();
             rep.add(CaseResult::violated(
-                key,
+                format!("prog-{key}"),
                 format!("nondeterministic/{comp}"),
-                json!({"seed": seed, "program_index": idx, "differing_components": differing,
+                json!({"seed": seed, "program_key": key, "stream": stream, "differing_components": differing,
                        "executions": all.iter().map(|(n, r)| (n.clone(), r.as_ref().map(|p| p.iter().map(|x| format!("{}={:x}", x.0, x.1)).collect::<Vec<_>>()))).collect::<Vec<_>>()}),
             ));
         }
     }
     if !varied {
         rep.add(CaseResult::inconclusive("canary", format!("only {n_canary} distinct map iteration orders observed")));
+    }
+    if only.is_some() {
+        rep.finish(0);
     }
     rep.finish(args.tier.pick(800, 20_000));
 }
